@@ -3,6 +3,8 @@ use crate::engine::Property;
 
 pub mod c01;
 pub mod c02;
+pub mod c03;
+pub mod c05;
 pub mod values;
 pub mod common;
 pub mod predicates;
@@ -11,6 +13,8 @@ pub fn lookup(id: &str) -> Option<Box<dyn Property + Send>> {
     match id {
         "C01" => Some(Box::new(c01::C01)),
         "C02" => Some(Box::new(c02::C02)),
+        "C03" => Some(Box::new(c03::C03)),
+        "C05" => Some(Box::new(c05::C05)),
         _ => None,
     }
 }
